@@ -9,5 +9,5 @@ bash lib/gate.sh
 ./build/translator -repo /repo -out coq/Gen -manifest build/gen_manifest.json || echo "setup: translator reported a break (checks will report it)"
 (cd coq && coq_makefile -f _CoqProject -o Makefile >/dev/null && timeout 3000 make -j16 >build.log 2>&1 || { tail -30 build.log; echo "setup: coq build failed (checks will report it)"; })
 cp /repo/go.sum harness/go.sum
-(cd harness && go build -tags verif -o ../build/harness . || echo "setup: harness build failed (checks will report it)")
+(cd harness && for d in c*/; do d=${d%/}; go build -tags verif -o ../build/harness_$d ./$d || echo "setup: harness $d build failed (its check will report it)"; done)
 echo setup done
